@@ -50,6 +50,24 @@ def sel(a, *ks):
 
 
 # ---------------------------------------------------------------------------- invariants
+def memo(fn):
+    """The same predicate over the same state terms yields the *same* z3 formula object, so that an
+    obligation `P(S) => P(S)` is a syntactic identity for the solver instead of a quantified proof."""
+    def wrapped(c, S):
+        cache = c.__dict__.setdefault("_pred_cache", {})
+        terms = [getattr(S, a) for a in ("nk", "ek", "nak", "eak", "N", "E", "Nin", "Nout", "Ein", "Eout", "uid") if hasattr(S, a)]
+        key = (fn.__name__,) + tuple(t.get_id() for t in terms)
+        hit = cache.get(key)
+        if hit is not None and all(a.eq(b) for a, b in zip(hit[1], terms)):
+            return hit[0]
+        f = fn(c, S)
+        cache[key] = (f, terms)
+        return f
+    wrapped.__name__ = fn.__name__
+    return wrapped
+
+
+@memo
 def UInv(c, S):
     """C01: two-way incidence with closed keys, one attribute record each, None never an id."""
     return z3.And(
@@ -67,6 +85,7 @@ def UInv_parts(c, S):
     ]
 
 
+@memo
 def DInv(c, S):
     """C02: tail <-> out-membership, head <-> in-membership."""
     return z3.And(
@@ -80,15 +99,18 @@ def Inv(c, S):
     return DInv(c, S) if S.kind == "DH" else UInv(c, S)
 
 
+@memo
 def Fresh(c, S):
     """C04: every integer-like edge id present is below the counter."""
     return c.forall(["id"], lambda e: z3.Implies(z3.And(sel(S.ek, e), c.intlike(e)), c.int_of(e) < S.uid))
 
 
+@memo
 def SNonEmpty(c, S):
     return c.forall(["id"], lambda e: z3.Implies(sel(S.ek, e), sel(S.E, e) != c.EMPTY))
 
 
+@memo
 def SDupFree(c, S):
     return c.forall(["id", "id"], lambda e, f: z3.Implies(z3.And(sel(S.ek, e), sel(S.ek, f), sel(S.E, e) == sel(S.E, f)), e == f))
 
@@ -97,6 +119,7 @@ def has_simplex(c, S, T):
     return c.exists(["id"], lambda e: z3.And(sel(S.ek, e), sel(S.E, e) == T))
 
 
+@memo
 def SClosed(c, S):
     return c.forall(["id", "set"], lambda e, T: z3.Implies(
         z3.And(sel(S.ek, e), c.subset(T, sel(S.E, e)), c.card(T) >= 2), has_simplex(c, S, T)))
